@@ -360,13 +360,17 @@ func runC02Bindings(c *core.Ctx, s *world.Schema, g0 *world.Graph, report func(p
 		name string
 		cfg  world.Config
 		reg  bool // RegisterField explicit
+		tri  []string
 	}
 	modes := []mode{
-		{"RS", world.Config{Strat: world.RS, Schema: s}, false},
-		{"AS", world.Config{Strat: world.AS, Schema: s}, false},
-		{"FS/auto", world.Config{Strat: world.FS, Bind: world.BindByName, Schema: s}, false},
-		{"FS/registered-types", world.Config{Strat: world.FS, Bind: world.BindRegister, Schema: s}, false},
-		{"FS/registered-fields", world.Config{Strat: world.FS, Bind: world.BindRegister, Schema: s}, true},
+		{"RS", world.Config{Strat: world.RS, Schema: s}, false, nil},
+		{"AS", world.Config{Strat: world.AS, Schema: s}, false, nil},
+		{"FS/auto", world.Config{Strat: world.FS, Bind: world.BindByName, Schema: s}, false, nil},
+		{"FS/registered-types", world.Config{Strat: world.FS, Bind: world.BindRegister, Schema: s}, false, nil},
+		{"FS/registered-fields", world.Config{Strat: world.FS, Bind: world.BindRegister, Schema: s}, true, nil},
+		// tri bound to methods whose parameter orders are the 3-cycles of the declared order
+		{"FS/registered-fields-cab", world.Config{Strat: world.FS, Bind: world.BindRegister, Schema: s}, true, []string{"tri", "TriCAB", "c", "a", "b"}},
+		{"FS/registered-fields-bca", world.Config{Strat: world.FS, Bind: world.BindRegister, Schema: s}, true, []string{"tri", "TriBCA", "b", "c", "a"}},
 	}
 	for di, d := range append(docs, revDocs...) {
 		isRev := di >= len(docs)
@@ -389,7 +393,11 @@ func runC02Bindings(c *core.Ctx, s *world.Schema, g0 *world.Graph, report func(p
 			}
 			if m.reg {
 				for _, tn := range []string{"Query", "A", "B", "C"} {
-					for _, rf := range [][]string{{"tri", "Tri", "a", "b", "c"}, {"rev", "Rev", "y", "x"}, {"title", "Title"}, {"echo", "Echo", "s", "b"}} {
+					tri := []string{"tri", "Tri", "a", "b", "c"}
+					if m.tri != nil {
+						tri = m.tri
+					}
+					for _, rf := range [][]string{tri, {"rev", "Rev", "y", "x"}, {"title", "Title"}, {"echo", "Echo", "s", "b"}} {
 						if e := regField(root, tn, rf); e != nil {
 							report("D-binding", "register-error", e.Error(), map[string]string{"mode": m.name, "field": rf[0]}, worldCase{Config: m.name, Query: text})
 						}
